@@ -83,6 +83,14 @@ def peers(tier):
         nm = lambda c: (c + '-' + 'x' * 80)[:n - 12] + '@example.org'
         out.append({'kn': 'names-of-%d-characters' % n, 'kex': ['curve25519-sha256', nm('kex')], 'key': ['ssh-ed25519', nm('key')], 'enc': [nm('enc'), 'aes256-ctr'],
                     'mac': ['hmac-sha2-256', nm('mac'), 'hmac-sha2-512'], 'hk': {}, 'gex': None})
+    # names with every punctuation character RFC 4251 allows in a name (printable US-ASCII without the comma), one character per name,
+    # spread over the four lists: what -M writes, -P reads back as the same names
+    punct = [c for c in map(chr, range(33, 127)) if not c.isalnum() and c != ',']
+    for k in range(0, len(punct), 8):
+        grp = punct[k:k + 8]
+        nm = lambda c, i: '%s%s%s-%d@pq.example.org' % (c, grp[i % len(grp)], 'x' if i % 2 else '256', i)
+        out.append({'kn': 'punctuation-%d' % k, 'kex': ['curve25519-sha256', nm('kex', 0), nm('mlkem', 1)], 'key': ['ssh-ed25519', nm('key', 2), nm('hk', 3)],
+                    'enc': [nm('enc', 4), 'aes256-ctr', nm('aes', 5)], 'mac': ['hmac-sha2-256', nm('mac', 6), nm('hmac', 7)], 'hk': {}, 'gex': None})
     # legal but unusual shapes: an empty name-list (AEAD-only server without MACs, GSSAPI-only server without host keys, ...)
     for cat in ('kex', 'key', 'enc', 'mac'):
         spec = {'kn': 'empty-' + cat, 'kex': ['curve25519-sha256'], 'key': ['ssh-ed25519'], 'enc': ['aes256-gcm@openssh.com'],
@@ -393,7 +401,7 @@ def work_lost_probe_make(chunk, st):
         alg = conn_alg[fconn]
         k = len([i for i in conn_alg if conn_alg[i] == alg and i < fconn])
         srv = c12.make_server(sub, style, 'both', banner)
-        want = c12.model_audit(srv.gex, banner, (alg, k, 'setup'))
+        want = c12.model_audit(srv.gex, banner, (alg, k, 'exchange' if fmsg == 2 else 'setup'))
         path = H.tmp_path('c05-lost-probe-%d.policy' % os.getpid())
         if os.path.exists(path):
             os.unlink(path)
